@@ -247,6 +247,16 @@ pub fn expand(e: &Expr) -> Expr {
         x => x.clone(),
     }
 }
+/// a = b as (a <= b) AND (a >= b), through AND / OR / NOT
+pub fn eq_range(e: &Expr) -> Expr {
+    match e {
+        Expr::And(a, b) => Expr::and(eq_range(a), eq_range(b)),
+        Expr::Or(a, b) => Expr::or(eq_range(a), eq_range(b)),
+        Expr::Not(a) => Expr::not(eq_range(a)),
+        Expr::Cmp(CmpOp::Eq, a, b) => Expr::and(Expr::Cmp(CmpOp::Le, a.clone(), b.clone()), Expr::Cmp(CmpOp::Ge, a.clone(), b.clone())),
+        x => x.clone(),
+    }
+}
 /// renumber columns
 pub fn remap(e: &Expr, f: &dyn Fn(usize) -> usize) -> Expr {
     let r = |x: &Expr| Box::new(remap(x, f));
@@ -269,6 +279,7 @@ pub fn remap(e: &Expr, f: &dyn Fn(usize) -> usize) -> Expr {
 pub enum Rewrite {
     Style(u8),            // same query, other surface syntax (sty)
     Mirror,               // WHERE and every ON mirrored
+    EqRange,              // every a = b of WHERE and of every ON as a <= b AND a >= b
     CommTop, AssocR, AssocL, DeMorgan, NotNot, Expand,      // on WHERE
     TrueConj(bool, Expr), // WHERE p -> p AND t (false) / t AND p (true); no WHERE -> WHERE t
     Items(Vec<usize>),    // select items reordered: new item j = old item p[j]
@@ -277,6 +288,9 @@ pub enum Rewrite {
     WhereToOn,            // root cross join with WHERE p -> INNER JOIN ON p, no WHERE
 }
 
+fn eq_range_from(f: &From) -> From {
+    match f { From::Tab(i) => From::Tab(*i), From::Join(k, l, r, on) => From::Join(*k, Box::new(eq_range_from(l)), Box::new(eq_range_from(r)), eq_range(on)) }
+}
 fn mirror_from(f: &From) -> From {
     match f { From::Tab(i) => From::Tab(*i), From::Join(k, l, r, on) => From::Join(*k, Box::new(mirror_from(l)), Box::new(mirror_from(r)), mirror(on)) }
 }
@@ -285,6 +299,7 @@ impl Rewrite {
     pub fn to_coq(&self) -> String {
         match self {
             Rewrite::Style(_) => "RwStyle".into(),
+            Rewrite::EqRange => "RwEqRange".into(),
             Rewrite::Mirror => "RwMirror".into(), Rewrite::CommTop => "RwCommTop".into(), Rewrite::AssocR => "RwAssocR".into(),
             Rewrite::AssocL => "RwAssocL".into(), Rewrite::DeMorgan => "RwDeMorgan".into(), Rewrite::NotNot => "RwNotNot".into(),
             Rewrite::Expand => "RwExpand".into(),
@@ -296,6 +311,7 @@ impl Rewrite {
     pub fn to_line(&self) -> String {
         match self {
             Rewrite::Style(s) => format!("style {}", s),
+            Rewrite::EqRange => "eqrange".into(),
             Rewrite::Mirror => "mirror".into(), Rewrite::CommTop => "commtop".into(), Rewrite::AssocR => "assocr".into(),
             Rewrite::AssocL => "assocl".into(), Rewrite::DeMorgan => "demorgan".into(), Rewrite::NotNot => "notnot".into(),
             Rewrite::Expand => "expand".into(),
@@ -309,6 +325,7 @@ impl Rewrite {
         let (h, rest) = s.split_once(' ').unwrap_or((s, ""));
         Some(match h {
             "style" => Rewrite::Style(rest.trim().parse().ok()?),
+            "eqrange" => Rewrite::EqRange,
             "mirror" => Rewrite::Mirror, "commtop" => Rewrite::CommTop, "assocr" => Rewrite::AssocR, "assocl" => Rewrite::AssocL,
             "demorgan" => Rewrite::DeMorgan, "notnot" => Rewrite::NotNot, "expand" => Rewrite::Expand,
             "true" => { let (side, e) = rest.trim().split_once(' ')?; Rewrite::TrueConj(side == "l", Expr::from_line(e.trim())?) }
@@ -319,6 +336,7 @@ impl Rewrite {
     }
     pub fn kind(&self) -> &'static str {
         match self {
+            Rewrite::EqRange => "eqrange",
             Rewrite::Style(_) => "style", Rewrite::Mirror => "mirror", Rewrite::CommTop => "commtop", Rewrite::AssocR => "assocr", Rewrite::AssocL => "assocl",
             Rewrite::DeMorgan => "demorgan", Rewrite::NotNot => "notnot", Rewrite::Expand => "expand", Rewrite::TrueConj(..) => "trueconj",
             Rewrite::Items(_) => "items", Rewrite::FromSwap => "fromswap", Rewrite::OnToWhere => "ontowhere", Rewrite::WhereToOn => "wheretoon",
@@ -335,6 +353,7 @@ impl Rewrite {
         match self {
             Rewrite::Style(s) => Some((Query { sty: *s, ..q.clone() }, vec![])),
             Rewrite::Mirror => Some((Query { from: mirror_from(&q.from), wh: q.wh.as_ref().map(mirror), ..q.clone() }, vec![])),
+            Rewrite::EqRange => Some((Query { from: eq_range_from(&q.from), wh: q.wh.as_ref().map(eq_range), ..q.clone() }, vec![])),
             Rewrite::CommTop => on_where(&comm_top),
             Rewrite::AssocR => on_where(&assoc_r),
             Rewrite::AssocL => on_where(&assoc_l),
@@ -651,6 +670,17 @@ pub fn dangers(q: &Query, db: &[Table]) -> Vec<&'static str> {
                 let conj = flatten_and(c);
                 let keys: Vec<(usize, usize)> = conj.iter().filter_map(|x| col_col_eq(x)).collect();
                 if !keys.is_empty() && (keys.len() < conj.len() || keys.iter().any(|(i, j)| leaf[*i] == leaf[*j])) { out.push("on_residual"); }
+                // hash join keys: -0.0 against 0.0 / integer 0
+                if let (From::Tab(lt), From::Tab(rt)) = (&**l, &**r) {
+                    let wl = db[*lt].cols.len();
+                    let zero_kind = |v: &Val| match v { Val::Float(b) if *b == 1u64 << 63 => 2, Val::Float(0) | Val::Int(0) => 1, _ => 0 };
+                    let has = |t: &Table, c: usize, k: i32| t.rows.iter().any(|r| r.get(c).map(|v| zero_kind(v) == k).unwrap_or(false));
+                    for (i, j) in &keys {
+                        if leaf[*i] == leaf[*j] { continue; }
+                        let (a, b) = if *i < wl { (*i, *j - wl) } else { (*j, *i - wl) };
+                        if (has(&db[*lt], a, 2) && has(&db[*rt], b, 1)) || (has(&db[*lt], a, 1) && has(&db[*rt], b, 2)) { out.push("negzero_key"); break; }
+                    }
+                }
             }
         }
     }
